@@ -10,6 +10,7 @@ connection), canary content neither in the captured arguments nor in the respons
 XMLParser constructed while handling the request, and - for the bombs, run in a child process - wall time and
 resident memory."""
 import ctypes
+import itertools
 import json
 import os
 import socket
@@ -286,18 +287,22 @@ def shards(tier):
     return out
 
 
-def run_one(h, wsgi, proto, transport, data):
+FRAMINGS = [('plain', b'', True), ('decl', b'<?xml version="1.0"?>', True), ('decl-encoding', b'<?xml version="1.0" encoding="utf-8"?>', True),
+            ('decl-encoding,no-charset', b'<?xml version="1.0" encoding="utf-8"?>', False), ('plain,no-charset', b'', False)]
+
+
+def run_one(h, wsgi, proto, transport, data, charset=True):
     b = h.b
     b.rec.reset()
     b.rec.script['m'] = ('ret', 'fine')
     if transport == 'wsgi':
-        env = drv.environ('POST', '/', '', data, content_type='text/xml; charset=utf-8')
+        env = drv.environ('POST', '/', '', data, content_type='text/xml; charset=utf-8' if charset else 'text/xml')
         o = drv.call_wsgi(wsgi, env)
         code = None
         if not (o.status or '').startswith('2') and o.out:
             code = 'fault'
     else:
-        o = drv.call_server(h.srv, data)
+        o = drv.call_server(h.srv, data, charset='utf-8' if charset else None)
     return o
 
 
@@ -358,19 +363,22 @@ def run_shard(shard, only=None):
             mon.patch_parsers()
             o = run_one(h, wsgi, proto, transport, valid)
             assert o.escaped is None and len(h.captured('m')) == 1, 'valid request must succeed'
-            for kind, pos, data in attack_docs(valid, mon, proto):
-                key = [kind, pos]
+            for (kind, pos, data0), (fid, prolog, charset) in itertools.product(list(attack_docs(valid, mon, proto)), FRAMINGS):
+                # framing: XML declaration (with / without encoding=) x charset announced by the transport or not -
+                # the protocols choose their parsing path by these
+                data = prolog + data0
+                key = [kind, pos, fid]
                 if only is not None and only != key:
                     continue
                 mon.reset()
-                o = run_one(h, wsgi, proto, transport, data)
+                o = run_one(h, wsgi, proto, transport, data, charset)
                 res['evaluations'] += 1
                 casedoc = {'shard': shard, 'only': key}
                 posclass = pos.split(':')[0]
 
                 def V(what_kind, detail, what):
-                    res['violations'].append({'sig': 'C17|%s|%s|%s|%s' % (what_kind, proto, kind, detail),
-                                              'what': '[%s %s %s at %s] %s; document=%r' % (proto, transport, kind, pos, what, data[:400]),
+                    res['violations'].append({'sig': 'C17|%s|%s|%s|%s|%s' % (what_kind, proto, kind, detail, fid),
+                                              'what': '[%s %s %s at %s, framing %s] %s; document=%r' % (proto, transport, kind, pos, fid, what, data[:400]),
                                               'case': casedoc, 'count': 1})
                 ok = True
                 nfile = mon.ino.drain()
@@ -386,7 +394,7 @@ def run_shard(shard, only=None):
                 hay = ' '.join(_strings([c[1] for c in calls])) + ' ' + (o.out or b'').decode('utf8', 'replace')
                 # (an internal entity's replacement text is a literal the client itself put in the document; libxml2
                 # substitutes it inside attribute values whatever the parser options - not a disclosure)
-                if mon.token in hay and kind not in ('pi-comment', 'internal-entity'):
+                if mon.token in hay and kind != 'pi-comment' and not (kind == 'internal-entity' and posclass == 'attr'):
                     V('content-leak', posclass, 'entity replacement text / canary content reached user code or the response: %r' % hay[:200])
                     ok = False
                 if kind == 'pi-comment' and mon.token in ' '.join(_strings([c[1] for c in calls])):
